@@ -11,6 +11,7 @@
 -/
 import PrologVerif.Model.VM
 import PrologVerif.Proofs.SLDSanity
+import PrologVerif.Properties.C01Activation
 namespace PrologVerif.C01
 open PrologVerif PrologVerif.VM PrologVerif.Promise
 
